@@ -78,6 +78,67 @@ def u_dimensional(I):
     return {'inputs': {}}
 
 
+CONCRETE = [('pgradd/ThermoChem/raw_data.py', 'ThermochemRawData'), ('pgradd/ThermoChem/incomplete.py', 'ThermochemIncomplete'),
+            ('pgradd/ThermoChem/group_data.py', 'ThermochemGroup'), ('pgradd/ThermoChem/group_data.py', 'ThermochemGroupAdditive')]
+
+
+def u_dimensional_class(rel, cname):
+    """the dimensional getters AS RESOLVED FOR ONE CONCRETE CLASS (an override is interpreted, not the base method), calling that class's own
+    non-dimensional getters through their real signatures (a getter that does not accept S_elements is a TypeError, as in CPython)"""
+    def run(I):
+        from pyvc.engine import Env
+        ctx = I.ctx
+        W_ = I.world
+        cls = source.module(rel).classes[cname]
+        h, s, cp, s_el = I.fresh('HoRT', 'real'), I.fresh('SoR', 'real'), I.fresh('CpoR', 'real'), I.fresh('SoR_rel_elements', 'real')
+        T, T_ref = I.fresh('T', 'real'), I.fresh('T_ref', 'real')
+        u = I.fresh('units', 'str')
+        uK = z3.Concat(u, z3.StringVal('/K'))
+        o = Obj(cls, {'T_ref': T_ref, 'range': None, 'ND_H_ref': I.fresh('H_ref', 'real'), 'ND_S_ref': I.fresh('S_ref', 'real'),
+                      'ND_Cp_data': [{}, {300.0: 4.0}][ctx.choose([True, True], 'has a table')]}, 'param')
+        seen = []
+
+        def abstract(name, value_of):
+            m = W_.find_method(cls, name)
+            if m is None:
+                return
+
+            def contract(I_, a, k):
+                local = I_.bind_args(m.node, a, k, Env({}, m, None, m.module, set()))      # the call must fit the real signature
+                return value_of(local)
+            W_.contracts[(m.module.relpath, m.qualname)] = contract
+        abstract('get_HoRT', lambda loc: h)
+        abstract('get_CpoR', lambda loc: cp)
+        abstract('get_SoR', lambda loc: (seen.append(loc.get('S_elements')), s_el if (loc.get('S_elements') is True) else s)[1])
+        which = ['get_H', 'get_G', 'get_S', 'get_Cp', 'get_GoRT'][ctx.choose([True] * 5, 'method')]
+        se = [None, True][ctx.choose([True, True], 'S_elements')] if which in ('get_G', 'get_S', 'get_GoRT') else None
+        m = W_.find_method(cls, which)
+        args = {'get_H': [T, u], 'get_G': [T, u], 'get_S': [T, u], 'get_Cp': [T, u], 'get_GoRT': [T]}[which]
+        kw = {'S_elements': se} if which in ('get_G', 'get_S', 'get_GoRT') and se is not None else {}
+        out = run_target(I, m.module.relpath, m.qualname, args, kw, self_obj=o)
+        sv = s_el if se else s
+        want = {'get_H': h * T * Rconst(uK), 'get_G': (h - sv) * T * Rconst(uK), 'get_S': sv * Rconst(u), 'get_Cp': cp * Rconst(u), 'get_GoRT': h - sv}[which]
+        check_outcome(I, out, returns=lambda r: [('%s.%s is the non-dimensional value of this class times R(u) (and T)' % (cname, which), z3_of(r) == want)])
+        return {'inputs': {}}
+    return run
+
+
+def replay_rawdata(model, state, ob):
+    from pgradd.ThermoChem.raw_data import ThermochemRawData
+    from pmutt import constants as c
+    from . import real
+    r = ThermochemRawData(-10.0, 20.0, [300., 400., 500.], [4., 5., 6.], 298.15, (250., 600.))
+    bad = []
+    for nm, args, want in (('get_S', (350., 'J/mol/K'), lambda: r.get_SoR(350.) * c.R('J/mol/K')), ('get_G', (350., 'kJ/mol'), lambda: (r.get_HoRT(350.) - r.get_SoR(350.)) * 350. * c.R('kJ/mol/K')),
+                           ('get_GoRT', (350.,), lambda: r.get_HoRT(350.) - r.get_SoR(350.))):
+        got = real.outcome(getattr(r, nm), *args)
+        if got[0] != 'ok' or not real.close(got[1], want(), 1e-12, 1e-12):
+            bad.append((nm, got))
+    return {'failed': bool(bad), 'input': "ThermochemRawData(-10, 20, [300, 400, 500], [4, 5, 6], 298.15, (250, 600)): get_S / get_G / get_GoRT at 350 K", 'observed': [str(b) for b in bad],
+            'expected': '(S/R) R(u), (H/RT - S/R) T R(u), H/RT - S/R',
+            'script': "from pgradd.ThermoChem.raw_data import ThermochemRawData\nr = ThermochemRawData(-10.0, 20.0, [300., 400., 500.], [4., 5., 6.], 298.15, (250., 600.))\nprint(r.get_S(350., 'J/mol/K'))\n"}
+
+
 def u_lemma_units(I):
     """From the four contracts: G = H - T*S in matching units; two unit choices differ by R(u1)/R(u2)."""
     ctx = I.ctx
@@ -162,6 +223,8 @@ def u_get_SoR_elements(I):
 
 UNITS = [
     Unit('ThermochemBase.get_H/get_G/get_S/get_Cp', (BASE, 'ThermochemBase.get_G'), u_dimensional),
+] + [Unit('%s: dimensional getters as resolved for the class' % cn, (BASE, 'ThermochemBase.get_G'), u_dimensional_class(rel, cn), replay_rawdata if cn == 'ThermochemRawData' else None)
+     for rel, cn in CONCRETE] + [
     Unit('lemma:units', None, u_lemma_units, kind='lemma'),
     Unit('ThermochemGroupAdditive.get_Selements', (GD, 'ThermochemGroupAdditive.get_Selements'), u_get_Selements),
     Unit('ThermochemGroupAdditive.get_SoR(S_elements)', (GD, 'ThermochemGroupAdditive.get_SoR'), u_get_SoR_elements),
